@@ -151,6 +151,11 @@ QuickImages ==
    [db |-> "d2", c |-> [Plain EXCEPT !.ps = "nocp"]], [db |-> "d1", c |-> [Plain EXCEPT !.ps = "cp0", !.refw = 3]],
    [db |-> "d4", c |-> [Plain EXCEPT !.refw = 3, !.holes = "stale"]]}
 
+\* "foreignr" (C04): catalogs another tool wrote, with and without orphan rows
+RejectImages == {[db |-> "d1", c |-> [Plain EXCEPT !.holes = "stale"]], [db |-> "d1", c |-> Plain],
+                 [db |-> "d2", c |-> [Plain EXCEPT !.holes = "stale", !.refw = 3, !.unsorted = TRUE]],
+                 [db |-> "d1", c |-> Plain @@ [ostream |-> TRUE]]}
+
 \* with the "desc" layout the code-page property is listed LAST and the text is in Windows-1252: a reader must
 \* find the page before decoding any string
 SummaryOf(c) == IF c.ps = "desc" THEN [ImgSummary EXCEPT !.codepage = IntV(1252)] ELSE ImgSummary
@@ -162,6 +167,8 @@ ImgJ(i, img) ==
                                                ELSE IF t = N_Validation THEN ValidationCols ELSE Dbs[i.db].tabs[t].cols
                                    IN [k \in 1..Len(cols) |-> TypeWord(cols[k])],
                          cells |-> img.ts[t]] : t \in DOMAIN img.ts}),
+   \* a table stream that no catalog row mentions (left behind by a tool that edited the catalog only)
+   ostreams |-> IF "ostream" \in DOMAIN i.c THEN <<[name |-> <<71, 111, 110, 101>>, words |-> <<TypeWord(ColK)>>, cells |-> <<<<IntV(1)>>>>]>> ELSE <<>>,
    summary |-> SummaryOf(i.c), pslayout |-> i.c.ps, int1 |-> i.c.int1,
    streams |-> SetToSeq({[name |-> n, data |-> Dbs[i.db].streams[n]] : n \in DOMAIN Dbs[i.db].streams})]
 
@@ -170,7 +177,7 @@ ImgJ(i, img) ==
 VARIABLE lay
 fview == <<view, lay>>
 FInit ==
-  \E i \in (IF Cfg = "foreignq" THEN QuickImages ELSE IF Cfg = "foreignx" THEN ExtraImages ELSE Images) :
+  \E i \in (IF Cfg = "foreignr" THEN RejectImages ELSE IF Cfg = "foreignq" THEN QuickImages ELSE IF Cfg = "foreignx" THEN ExtraImages ELSE Images) :
     LET img == BuildImage(Dbs[i.db], i.c) IN
     /\ tstream = img.ts /\ pool = NormPool(img.pool)
     /\ schemas = DecodeSchemas(img.ts, img.pool)
@@ -188,7 +195,19 @@ FAlphabet ==
    E("WriteStream", [name |-> <<110>>, data |-> "b07"]),
    E("SetSummary", [field |-> "comments", value |-> StrV(<<99>>)]),
    E("Flush", [x |-> 0]), E("IntoInner", [x |-> 0]), E("Reopen", [x |-> 0])}
-FNext == (\E e \in FAlphabet : Do(e)) /\ UNCHANGED lay
+\* refused calls naming the table that only orphan catalog rows describe: the rows stay (C04 on foreign catalogs)
+Gone == <<71, 111, 110, 101>>
+GoneRejects == {Drp(Gone), Cre(Gone, <<>>), Cre(Gone, <<ColV>>)}
+\* "foreignr" (C04): refused calls of every statement kind on catalogs another tool wrote, with and without orphan rows
+RAlphabet == {Ins(T, <<<<IntV(9)>>>>), Ins(T, <<<<IntV(1), sb>>>>), Upd(T, <<<<X, Null>>>>, True), Upd(T, <<<<K, sa>>>>, True),
+              Del(T, Eq(X, IntV(1))), Drp(X), Cre(T, TabT), Cre(X, <<ColV>>), Ins(T, <<<<IntV(9), sb>>>>),
+              E("Flush", [x |-> 0]), E("Reopen", [x |-> 0])}
+FNext == /\ \/ \E e \in (IF Cfg = "foreignr" THEN RAlphabet ELSE FAlphabet) : Do(e)
+            \/ sess = "open" /\ CatalogMentions(Cur, Gone) /\ Gone \notin DOMAIN Cur.schemas /\ \E e \in GoneRejects : Do(e)
+            \* only REFUSED creations where an orphan stream waits under the name (what an accepted one finds there is not specified)
+            \/ sess = "open" /\ "ostream" \in DOMAIN lay.c /\ Gone \notin DOMAIN Cur.schemas
+               /\ \E e \in {Cre(Gone, <<>>), Cre(Gone, <<ColK, StrCol(V, 300, TRUE, FALSE, <<>>)>>), Drp(Gone)} : Do(e)
+         /\ UNCHANGED lay
 FSpec == FInit /\ [][FNext]_<<vars, lay>>
 
 \* what opening the image must report, for the first replayed step of every path
